@@ -197,10 +197,13 @@ func c08Units(tier string, seed int64) []Unit {
 					uname += fmt.Sprintf("/deviations<=%d", maxDev)
 				}
 				layered = append(layered, Unit{Name: uname, Run: func(c *Ctx) {
-					allSkipB := true
+					allSkipB, allSkipA := true, true
 					for _, k := range set {
 						if k != "skipB" {
 							allSkipB = false
+						}
+						if k != "skipA" {
+							allSkipA = false
 						}
 					}
 					type bd struct {
@@ -271,6 +274,10 @@ func c08Units(tier string, seed int64) []Unit {
 							}
 							if allSkipB && nAct > 0 && res.Kind != rapid.VerifFail && !src.Ended {
 								viol("no-failure-when-no-action-can-run", "every action skipped without drawing, yet Repeat did not report a failure")
+							}
+							// the same clause for actions that find out only after drawing that they can not run
+							if allSkipA && nAct > 0 && !falsified && res.Kind != rapid.VerifFail && !src.Ended {
+								viol("no-failure-when-no-action-can-run kinds=all-skip-after-drawing", "every action skipped (after drawing), no action was able to run, yet Repeat returned normally and the test case passes")
 							}
 						})
 					}
